@@ -103,12 +103,44 @@ TRUST = ("Trusted base: the hand-written import/MRO/CHA resolution in sa/project
          "Nothing is executed.")
 
 
+EXTRA_TEXT = {
+    "C01": " Also (SH5): Point.coords in all five models and Point.distance, interpreted on abstract objects, return the composite axes of the object followed by n-1 / n coordinates (resp. nothing) for composite shapes of every rank.",
+    "C04": " Also (SH5, MEAN1): 69 method rows of hyperbolic.py (coordinates, distance, origin_to, circle/sphere parameters, tangent-vector operations, fixed points, from_reflection, intersect_geodesic ...) interpreted end to end on abstract objects return, for a single object and for arrays of every rank, the composite axes followed by the documented unit shape, and no item assignment lands on a NumPy scalar.",
+    "C13": " Also (SH5): origin_to, unit_tangent_towards, normalized, angle and point_along keep the composite axes of their object for every rank.",
+    "C14": " Also (SH5, MEAN1): every circle_parameters / sphere_parameters / *_coords method returns (centre O+(n-1), radius O, angle pair O+(2,)) for composite shape O of every rank including a single object; midpoints divide by the size of the summed axis.",
+    "C15": " Also (SH5): reflection_across, from_reflection, _data_with_dual, spacelike_complement and the fixed-point methods (either flag) return the documented shapes for composite shapes of every rank.",
+    "C20": " Also (SH6): 19 method rows of complex_projective.py (disk accessors, center_inside, fs_diameter, fs_center, inversion, complement, contains/intersects elementwise and pairwise, both coordinate maps) return the documented shapes for a single object and for arrays of every rank, with no item assignment on a NumPy scalar.",
+}
+EXTRA_TECH = {
+    "C01": "; abstract interpretation of object methods over symbolic shapes",
+    "C04": "; abstract interpretation of whole object methods over symbolic shapes with NumPy-scalar typing",
+    "C13": "; abstract interpretation of object methods over symbolic shapes",
+    "C14": "; abstract interpretation of object methods over symbolic shapes with NumPy-scalar typing",
+    "C15": "; abstract interpretation of object methods over symbolic shapes",
+    "C20": "; abstract interpretation of CP1 object methods over symbolic shapes with NumPy-scalar typing",
+}
+
+
+def _engine_from_evidence(pid, default):
+    path = os.path.join(HERE, "evidence", f"{pid}.json")
+    try:
+        with open(path) as f:
+            per = json.load(f)["coverage"]["per_rule"]
+        names = sorted(k for k in per if k != "SELFTEST")
+        return " + ".join(names) if names else default
+    except Exception:
+        return default
+
+
 def main(implemented):
     checks = []
     for pid in sorted(CHECKS):
         if pid not in implemented:
             continue
-        c = CHECKS[pid]
+        c = dict(CHECKS[pid])
+        c["engine"] = _engine_from_evidence(pid, c["engine"])
+        c["text"] = c["text"] + EXTRA_TEXT.get(pid, "")
+        c["technique"] = c["technique"] + EXTRA_TECH.get(pid, "")
         checks.append({
             "property_id": pid,
             "quick_cmd": f"/venv/bin/python -m sa check {pid} --tier quick",
